@@ -95,12 +95,14 @@ func (ce *convergenceElem) handler() {
 // activate tries to start this convergenceElem. Both a success message and an
 // indicator for a new attempt are returned.
 func (ce *convergenceElem) activate() (successful, retry bool) {
-	if ce.isActive() {
-		return
-	}
-
 	ce.mutex.Lock()
 	defer ce.mutex.Unlock()
+
+	// This is checked while holding the mutex; a retry tick might try to activate this element at the same time as
+	// a registration does. An element which is already active must neither be started twice nor be given up.
+	if ce.isActive() {
+		return true, false
+	}
 
 	if atomic.LoadInt32(&ce.ttl) == 0 && !ce.conv.IsPermanent() {
 		log.WithFields(log.Fields{
